@@ -2,6 +2,7 @@
 \* independent copies of its registers", whole registers): the bits of 0x1DA outside SRC_SPACE /
 \* DST_SPACE / DWM are one word shared by all channels -> ChannelIndependentStrict is violated
 CONSTANTS
+  FixedChannelSelect = TRUE
   FixedWindowRaw = FALSE
   FixedWatchdogRestart = FALSE
   ValMode = 1
